@@ -555,7 +555,7 @@ func renamedType(typ jsonapi.Type, suffix string) jsonapi.Type {
 // (as many fields under other names, all set) - whatever its past, it is now an empty
 // resource of typ.
 func newSoftVia(r *Rng, typ jsonapi.Type, o *Out) *jsonapi.SoftResource {
-	switch r.IntN(4) {
+	switch r.IntN(5) {
 	case 0:
 		o.stat("soft.via-type-new")
 		pre := typ.Copy()
@@ -591,6 +591,32 @@ func newSoftVia(r *Rng, typ jsonapi.Type, o *Out) *jsonapi.SoftResource {
 		fill(sr, "old-id", genFieldVals(r, old))
 		t := typ.Copy()
 		sr.SetType(&t)
+		sr.SetID("")
+		return sr
+	case 2:
+		// the application edited the type the resource points to, directly, after the
+		// resource had been used: every field gave way to one of another name (as many
+		// fields as before)
+		o.stat("soft.via-type-edited-in-place")
+		t := renamedType(typ, "~")
+		t.Name = typ.Name
+		sr := &jsonapi.SoftResource{Type: &t}
+		fill(sr, "old-id", genFieldVals(r, t))
+		for _, f := range t.Fields() {
+			_ = sr.Get(f)
+		}
+		for k := range t.Attrs {
+			delete(t.Attrs, k)
+		}
+		for k := range t.Rels {
+			delete(t.Rels, k)
+		}
+		for k, a := range typ.Attrs {
+			t.Attrs[k] = a
+		}
+		for k, rel := range typ.Rels {
+			t.Rels[k] = rel
+		}
 		sr.SetID("")
 		return sr
 	default:
